@@ -14,6 +14,8 @@ CONFIGS = {
     "km-r4": dict(crate="kani-km", features=[], cfg_miri=True, rustflags=""),
     # KV-lite: facts about the REAL hashbrown the model relies on (portable group via --cfg miri)
     "kv": dict(crate="kani-kv", features=[], cfg_miri=True, rustflags=""),
+    # KR-lite: griddle on the REAL hashbrown (portable group + griddle's own R = 4 via --cfg miri)
+    "kr": dict(crate="kani-kr", features=[], cfg_miri=True, rustflags=""),
     "km-serde": dict(crate="kani-km", features=["serde"], cfg_miri=False, rustflags=""),
     "km-cnt": dict(crate="kani-km", features=["counters"], cfg_miri=False, rustflags=""),
     "km-cnt-rel": dict(crate="kani-km", features=["counters"], cfg_miri=False, rustflags="-C debug-assertions=off"),
@@ -67,8 +69,9 @@ SUITES = {
                           "zst_remove__old", "zst_remove__old2", "en_occ_remove__s8_8g4", "en_occ_replace_with__s8_8g0",
                           "it_drain__s8_8g4_j1", "it_into_iter__s8_8g4_j1", "st_insert__s8_8g4"]),
                   ("km-rel", ["st_raw_replace_with__s8_8g0", "st_remove__s8_8g0"]),
-                  ("kv", ["kv_reflect_insert_is_not_an_inverse", "kv_replace_bucket_with_restores", "kv_sizing_small"])],
-        "thorough": [("kv", ["kv_*"]), ("km", ["st_*", "rt_*", "zst_*", "en_occ_*", "it_drain__*", "it_into_iter__*", "pan_raw_*"]),
+                  ("kv", ["kv_reflect_insert_is_not_an_inverse", "kv_replace_bucket_with_restores", "kv_sizing_small"]),
+                  ("kr", ["kr_split_prefix_is_split"])],
+        "thorough": [("kv", ["kv_*"]), ("kr", ["kr_*"]), ("km", ["st_*", "rt_*", "zst_*", "en_occ_*", "it_drain__*", "it_into_iter__*", "pan_raw_*"]),
                      ("km-rel", ["st_raw_replace_with__*", "st_remove__*", "rt_retain__s8_8g0", "en_occ_replace_with__*"])],
     },
     "C07": {
